@@ -46,4 +46,20 @@ VOCAB(h_iq, ARR("iq", "error", "bind", "ping", "text", "item-not-found", "zz"), 
 #define STANZA_FIXPOINT(T, name, t) { T x; x.parse(t); VpWriter w1; x.toXml(w1.writer()); QDomElement t1 = w1.root(); \
       T y; y.parse(t1); VpWriter w2; y.toXml(w2.writer()); QDomElement t2 = w2.root(); \
       vp_assert(vp_dom_equal(&t1, &t2), "C02 " name ": parse/serialize is a fix point (second pass gives the same document)"); }
-extern "C" void h_iq() { WARM() C02Tree<2, 1> t; t.build(h_iq_v); STANZA_FIXPOINT(QXmppIq, "QXmppIq", t.root.el) }
+// Shape (child count, tag and namespace of every child and of its optional single grandchild) is chosen by VP_CASE, i.e. concrete per instance;
+// attribute presence/values and text stay symbolic. (A fully symbolic tree through QXmppIq + QXmppStanza::parse + Error::parse twice gave no
+// verdict in 15 min.)  bits: [0..1] n1 (0..2); per child c at base 2 + 11*c: [0..2] tag, [3..4] ns, [5] has grandchild, [6..8] grandchild tag, [9..10] grandchild ns
+template<class T> static void iqShape(const Vocab &v, const char *name, int rootTag)
+{
+    C02Node root, c[2], g[2];
+    root.make(v, nullptr, rootTag, -1);
+    unsigned n1 = vp_case_u(0, 3);
+    for (unsigned i = 0; i < 2; i++) {
+        if (i >= n1) break;
+        unsigned b = 2 + 11 * i;
+        c[i].make(v, &root, int(vp_case_u(b, 8) % v.nTags), int(vp_case_u(b + 3, 4) % v.nNss)); vp_c02_append(&root.el, &c[i].el);
+        if (vp_case_bool(b + 5)) { g[i].make(v, &c[i], int(vp_case_u(b + 6, 8) % v.nTags), int(vp_case_u(b + 9, 4) % v.nNss)); vp_c02_append(&c[i].el, &g[i].el); }
+    }
+    STANZA_FIXPOINT(T, "stanza", root.el)
+}
+extern "C" void h_iq() { WARM() iqShape<QXmppIq>(h_iq_v, "QXmppIq", 0); }
